@@ -42,20 +42,6 @@ Qed.
 
 (* ---------- the reference search ---------- *)
 
-Inductive dres :=
-| DFound (r : list key)      (* the path from the node to the first repeated node, both included *)
-| DExhausted                 (* every path below the node ends without meeting the current path *)
-| DDepth.                    (* depth budget used up (impossible when the budget is the number of nodes) *)
-
-Fixpoint scan_children (f : key -> dres) (ps : list key) : dres :=
-  match ps with
-  | [] => DExhausted
-  | p :: t => match f p with
-              | DExhausted => scan_children f t
-              | other => other
-              end
-  end.
-
 (* iterations of the loop spent on the children from the current one on *)
 Fixpoint children_steps (f : key -> dres) (s : key -> nat) (ps : list key) : nat :=
   match ps with
@@ -72,28 +58,10 @@ Section Proofs.
 
   Notation preds := (preds klt g).
 
-  (* x depends on (waits on) y *)
-  Definition dep (x y : key) : Prop := In (y, x) g.
+  Notation dep := (FindCycle.dep g).
+  Notation chain := (FindCycle.chain g).
 
-  (* a walk along predecessor edges: every key is followed by a key it waits on *)
-  Fixpoint chain (l : list key) : Prop :=
-    match l with
-    | [] => True
-    | x :: t => match t with
-                | [] => True
-                | y :: _ => dep x y /\ chain t
-                end
-    end.
-
-  Fixpoint dfs (k : nat) (x : key) (items : list key) : dres :=
-    if mem_key x items then DFound [x]
-    else match k with
-         | O => DDepth
-         | S k' => match scan_children (fun p => dfs k' p (x :: items)) (preds x) with
-                   | DFound r => DFound (x :: r)
-                   | other => other
-                   end
-         end.
+  Notation dfs := (FindCycle.dfs klt g).
 
   Fixpoint dfs_steps (k : nat) (x : key) (items : list key) : nat :=
     if mem_key x items then 1
@@ -134,7 +102,7 @@ Section Proofs.
 
   Lemma preds_unsorted_In x y : In y (preds_unsorted g x) <-> dep x y.
   Proof.
-    unfold preds_unsorted, dep. rewrite in_map_iff. split.
+    unfold preds_unsorted, FindCycle.dep. rewrite in_map_iff. split.
     - intros [[a b] [Hf Hi]]. apply filter_In in Hi. destruct Hi as [Hi He]. cbn in *. apply N.eqb_eq in He. subst. exact Hi.
     - intros H. exists (y, x). split; [reflexivity|]. apply filter_In. split; [exact H | cbn; apply N.eqb_refl].
   Qed.
@@ -223,9 +191,9 @@ Section Proofs.
   Lemma fc_loop_dfs k : sim_ok k.
   Proof.
     induction k as [|k IH]; intros x items rest cl.
-    - cbn [dfs dfs_steps]. destruct (mem_key x items) eqn:Em; [|exact I].
+    - cbn [FindCycle.dfs dfs_steps]. destruct (mem_key x items) eqn:Em; [|exact I].
       intros f. cbn [Nat.add]. apply loop_found. exact Em.
-    - cbn [dfs dfs_steps]. destruct (mem_key x items) eqn:Em.
+    - cbn [FindCycle.dfs dfs_steps]. destruct (mem_key x items) eqn:Em.
       + intros f. cbn [Nat.add]. apply loop_found. exact Em.
       + assert (Hx : ~ In x items) by (apply mem_key_false; exact Em).
         pose proof (children_sim k x items rest cl IH Hx (preds x) [] eq_refl) as Hc.
@@ -278,12 +246,12 @@ Section Proofs.
   (* ---------- soundness of the reference search ---------- *)
 
   Lemma chain_cons x y t : dep x y -> chain (y :: t) -> chain (x :: y :: t).
-  Proof. intros H1 H2. cbn [chain]. split; assumption. Qed.
+  Proof. intros H1 H2. cbn [FindCycle.chain]. split; assumption. Qed.
 
   Lemma dfs_sound k : forall x items r, dfs k x items = DFound r ->
     exists pre z, r = pre ++ [z] /\ hd z pre = x /\ chain r /\ In z (pre ++ items) /\ NoDup pre /\ (forall y, In y pre -> ~ In y items).
   Proof.
-    induction k as [|k IH]; intros x items r H; cbn [dfs] in H.
+    induction k as [|k IH]; intros x items r H; cbn [FindCycle.dfs] in H.
     - destruct (mem_key x items) eqn:Em; [|discriminate H].
       injection H as <-. exists [], x. cbn. repeat split; [apply mem_key_true; exact Em | constructor | intros y []].
     - destruct (mem_key x items) eqn:Em.
@@ -310,7 +278,7 @@ Section Proofs.
   Lemma dfs_no_depth (V : list key) : (forall x y, dep x y -> In y V) ->
     forall k x items, In x V -> NoDup items -> incl items V -> length V <= k + length items -> dfs k x items <> DDepth.
   Proof.
-    intros Hclosed. induction k as [|k IH]; intros x items Hx Hnd Hincl Hlen; cbn [dfs].
+    intros Hclosed. induction k as [|k IH]; intros x items Hx Hnd Hincl Hlen; cbn [FindCycle.dfs].
     - destruct (mem_key x items) eqn:Em; [discriminate|]. exfalso.
       apply mem_key_false in Em.
       assert (Hl : length (x :: items) <= length V).
@@ -351,9 +319,9 @@ Section Proofs.
     NoDup (x :: l) /\ (forall y, In y (x :: l) -> ~ In y items).
   Proof.
     induction l as [|y l IH]; intros k x items H Hc.
-    - destruct k; cbn [dfs] in H; destruct (mem_key x items) eqn:Em; try discriminate H.
+    - destruct k; cbn [FindCycle.dfs] in H; destruct (mem_key x items) eqn:Em; try discriminate H.
       apply mem_key_false in Em. split; [constructor; [intros []|constructor]|]. intros y [Hy|[]]. subst y. exact Em.
-    - destruct k as [|k]; cbn [dfs] in H; destruct (mem_key x items) eqn:Em; try discriminate H.
+    - destruct k as [|k]; cbn [FindCycle.dfs] in H; destruct (mem_key x items) eqn:Em; try discriminate H.
       apply mem_key_false in Em.
       destruct (scan_children (fun p => dfs k p (x :: items)) (preds x)) as [r'| |] eqn:ES; try discriminate H.
       destruct Hc as [Hd Hc].
@@ -369,22 +337,22 @@ Section Proofs.
   Lemma chain_app_r a : forall b, chain (a ++ b) -> chain b.
   Proof.
     induction a as [|x a IH]; intros b H; [exact H|].
-    apply IH. cbn [app] in H. destruct (a ++ b) as [|y t] eqn:E; [cbn; exact I|]. cbn [chain] in H. apply H.
+    apply IH. cbn [app] in H. destruct (a ++ b) as [|y t] eqn:E; [cbn; exact I|]. cbn [FindCycle.chain] in H. apply H.
   Qed.
 
   Lemma chain_app_l a : forall b, chain (a ++ b) -> chain a.
   Proof.
     induction a as [|x a IH]; intros b H; [exact I|].
     destruct a as [|y a]; [exact I|].
-    cbn [app chain] in H. destruct H as [H1 H2]. cbn [chain]. split; [exact H1|]. apply (IH b). exact H2.
+    cbn [app FindCycle.chain] in H. destruct H as [H1 H2]. cbn [FindCycle.chain]. split; [exact H1|]. apply (IH b). exact H2.
   Qed.
 
   Lemma chain_join a x b : chain (a ++ [x]) -> chain (x :: b) -> chain (a ++ x :: b).
   Proof.
     induction a as [|y a IH]; intros H1 H2; [exact H2|].
     destruct a as [|z a].
-    - cbn [app] in *. cbn [chain] in H1. apply chain_cons; [apply H1 | exact H2].
-    - cbn [app chain] in H1. destruct H1 as [Hd H1]. cbn [app]. apply chain_cons; [exact Hd|].
+    - cbn [app] in *. cbn [FindCycle.chain] in H1. apply chain_cons; [apply H1 | exact H2].
+    - cbn [app FindCycle.chain] in H1. destruct H1 as [Hd H1]. cbn [app]. apply chain_cons; [exact Hd|].
       apply IH; assumption.
   Qed.
 
@@ -397,8 +365,8 @@ Section Proofs.
   Lemma chain_snoc x w p : chain (x :: w) -> dep (last (x :: w) x) p -> chain (x :: w ++ [p]).
   Proof.
     revert x. induction w as [|y w IH]; intros x Hc Hd.
-    - cbn in Hd. cbn [app chain]. split; [exact Hd | exact I].
-    - cbn [chain] in Hc. destruct Hc as [H1 H2]. cbn [app]. apply chain_cons; [exact H1|].
+    - cbn in Hd. cbn [app FindCycle.chain]. split; [exact Hd | exact I].
+    - cbn [FindCycle.chain] in Hc. destruct Hc as [H1 H2]. cbn [app]. apply chain_cons; [exact H1|].
       apply IH; [exact H2|]. rewrite (last_cons_default y w y x). exact Hd.
   Qed.
 
@@ -406,6 +374,11 @@ Section Proofs.
 
   Variable root : key.
   Notation V := (fc_nodes g root).
+  Notation cycle_reachable := (FindCycle.cycle_reachable g root).
+  Notation no_dead_end := (FindCycle.no_dead_end g root).
+  Notation closed_walk := (FindCycle.closed_walk g).
+  Notation reachable := (FindCycle.reachable g root).
+  Notation acyclic := (FindCycle.acyclic g).
 
   Lemma V_root : In root V.
   Proof. unfold fc_nodes. apply nodup_In. left. reflexivity. Qed.
@@ -424,12 +397,10 @@ Section Proofs.
     induction w as [|y w IH]; intros x Hx Hc z Hz.
     - destruct Hz as [Hz|[]]. subst z. exact Hx.
     - destruct Hz as [Hz|Hz]; [subst z; exact Hx|].
-      cbn [chain] in Hc. destruct Hc as [Hd Hc]. apply (IH y); [apply (V_closed x); exact Hd | exact Hc | exact Hz].
+      cbn [FindCycle.chain] in Hc. destruct Hc as [Hd Hc]. apply (IH y); [apply (V_closed x); exact Hd | exact Hc | exact Hz].
   Qed.
 
-  (* what the loop returns, given enough fuel *)
-  Definition fc_reference : list key :=
-    match dfs (length V) root [] with DFound r => r | _ => [] end.
+  Notation fc_reference := (FindCycle.fc_reference klt g root).
 
   Lemma dfs_top_no_depth : dfs (length V) root [] <> DDepth.
   Proof.
@@ -438,7 +409,7 @@ Section Proofs.
 
   Theorem fc_exact fuel : fc_fuel g root <= fuel -> findCycle klt g root fuel = FcDone fc_reference.
   Proof.
-    intros Hf. unfold findCycle, fc_reference, fc_fuel in *.
+    intros Hf. unfold findCycle, FindCycle.fc_reference, fc_fuel in *.
     pose proof (dfs_steps_bound (length V) root []) as Hb.
     pose proof (fc_loop_dfs (length V) root [] [] []) as Hs.
     pose proof dfs_top_no_depth as Hd.
@@ -464,7 +435,7 @@ Section Proofs.
   Lemma fc_reference_sound : fc_reference <> [] ->
     exists pre z, fc_reference = pre ++ [z] /\ hd_error fc_reference = Some root /\ chain fc_reference /\ In z pre /\ NoDup pre.
   Proof.
-    unfold fc_reference. destruct (dfs (length V) root []) as [r| |] eqn:E; intros Hne; try (exfalso; apply Hne; reflexivity).
+    unfold FindCycle.fc_reference. destruct (dfs (length V) root []) as [r| |] eqn:E; intros Hne; try (exfalso; apply Hne; reflexivity).
     apply dfs_sound in E. destruct E as [pre [z [Hr [Hh [Hc [Hz [Hnd _]]]]]]].
     rewrite app_nil_r in Hz.
     exists pre, z. repeat split; try assumption.
@@ -481,12 +452,10 @@ Section Proofs.
 
   (* ---------- when is the result empty ---------- *)
 
-  (* some walk from the root along predecessor edges visits a key twice *)
-  Definition cycle_reachable : Prop := exists w, chain (root :: w) /\ ~ NoDup (root :: w).
 
   Lemma fc_reference_empty_iff : fc_reference = [] <-> ~ cycle_reachable.
   Proof.
-    unfold fc_reference. pose proof dfs_top_no_depth as Hd.
+    unfold FindCycle.fc_reference. pose proof dfs_top_no_depth as Hd.
     destruct (dfs (length V) root []) as [r| |] eqn:E.
     - apply dfs_sound in E. destruct E as [pre [z [Hr [Hh [Hc [Hz [Hnd _]]]]]]]. rewrite app_nil_r in Hz.
       split.
@@ -513,8 +482,6 @@ Section Proofs.
   Theorem fc_complete_any_fuel fuel l : findCycle klt g root fuel = FcDone l -> (l = [] <-> ~ cycle_reachable).
   Proof. intros H. apply fc_any_fuel in H. subst l. apply fc_reference_empty_iff. Qed.
 
-  (* a stalled engine: every key reachable from the root waits on something *)
-  Definition no_dead_end : Prop := forall w, chain (root :: w) -> exists p, dep (last (root :: w) root) p.
 
   Lemma long_walk : no_dead_end -> forall n, exists w, length w = n /\ chain (root :: w).
   Proof.
@@ -542,9 +509,6 @@ Section Proofs.
 
   (* ---------- the classical formulation: closed walks ---------- *)
 
-  Definition closed_walk (y : key) (m : list key) : Prop := chain (y :: m ++ [y]).     (* y -> ... -> y, at least one edge *)
-  Definition reachable (y : key) : Prop := exists w, chain (root :: w) /\ last (root :: w) root = y.
-  Definition acyclic : Prop := forall y m, ~ closed_walk y m.
 
   Lemma not_NoDup_split (l : list key) : ~ NoDup l -> exists y l1 l2 l3, l = l1 ++ y :: l2 ++ y :: l3.
   Proof.
@@ -568,7 +532,7 @@ Section Proofs.
           -- rewrite E2 in Hc. change (root :: l1 ++ y :: l2 ++ y :: l3) with ((root :: l1) ++ [y] ++ (l2 ++ y :: l3)) in Hc.
              rewrite app_assoc in Hc. apply chain_app_l in Hc. exact Hc.
           -- change (root :: l1 ++ [y]) with ((root :: l1) ++ [y]). apply last_last.
-      + unfold closed_walk. rewrite E in Hc. apply chain_app_r in Hc.
+      + unfold FindCycle.closed_walk. rewrite E in Hc. apply chain_app_r in Hc.
         change (y :: l2 ++ y :: l3) with ((y :: l2) ++ [y] ++ l3) in Hc. rewrite app_assoc in Hc.
         apply chain_app_l in Hc. exact Hc.
     - intros [y [m [[w [Hc Hl]] Hm]]].
@@ -576,7 +540,7 @@ Section Proofs.
       { exists (removelast (root :: w)). rewrite <- Hl. apply app_removelast_last. discriminate. }
       destruct Hs as [a Ha].
       destruct a as [|r a].
-      + cbn [app] in Ha. injection Ha as Hr Hw. exists (m ++ [root]). unfold closed_walk in Hm. rewrite <- Hr in Hm.
+      + cbn [app] in Ha. injection Ha as Hr Hw. exists (m ++ [root]). unfold FindCycle.closed_walk in Hm. rewrite <- Hr in Hm.
         split; [exact Hm|].
         intros Hno. inversion Hno as [|? ? Hni _]. apply Hni. apply in_or_app. right. left. reflexivity.
       + cbn [app] in Ha. injection Ha as Hr Hw. subst r. exists (a ++ y :: m ++ [y]). split.
@@ -606,8 +570,8 @@ Section Proofs.
         exists (pre ++ [z]). subst r. split; [exact Hc|].
         intros Hno. change (root :: pre ++ [z]) with ((root :: pre) ++ [z]) in Hno.
         apply NoDup_remove_2 in Hno. apply Hno. rewrite app_nil_r. exact Hz.
-      + exfalso. apply Hne. unfold fc_reference. rewrite E. reflexivity.
-      + exfalso. apply Hne. unfold fc_reference. rewrite E. reflexivity.
+      + exfalso. apply Hne. unfold FindCycle.fc_reference. rewrite E. reflexivity.
+      + exfalso. apply Hne. unfold FindCycle.fc_reference. rewrite E. reflexivity.
     - intros Hc. exists fc_reference. split; [reflexivity|]. intros He. apply fc_reference_empty_iff in He. exact (He Hc).
   Qed.
 
@@ -625,9 +589,9 @@ Section Proofs.
     exists r, dfs k x items = DFound r /\ dfs_steps k x items = length r.
   Proof.
     induction k as [|k IH]; intros x items Hn Hx Hnd Hincl Hlen.
-    - pose proof (dfs_no_depth V V_closed 0 x items Hx Hnd Hincl Hlen) as Hd. cbn [dfs dfs_steps] in *.
+    - pose proof (dfs_no_depth V V_closed 0 x items Hx Hnd Hincl Hlen) as Hd. cbn [FindCycle.dfs dfs_steps] in *.
       destruct (mem_key x items); [exists [x]; split; reflexivity | exfalso; apply Hd; reflexivity].
-    - cbn [dfs dfs_steps]. destruct (mem_key x items) eqn:Em; [exists [x]; split; reflexivity|].
+    - cbn [FindCycle.dfs dfs_steps]. destruct (mem_key x items) eqn:Em; [exists [x]; split; reflexivity|].
       apply mem_key_false in Em.
       destruct (Hn [] I) as [p Hp]. cbn in Hp. apply preds_In in Hp.
       destruct (preds x) as [|p0 t] eqn:Eps; [destruct Hp|].
@@ -795,14 +759,14 @@ Section Conditions.
     forall l x, chain g (x :: l) -> forall y, In y l -> rk y < rk x.
   Proof.
     intros Hr. induction l as [|z l IH]; intros x Hc y Hy; [destruct Hy|].
-    cbn [chain] in Hc. destruct Hc as [Hd Hc]. specialize (Hr x z Hd).
+    cbn [FindCycle.chain] in Hc. destruct Hc as [Hd Hc]. specialize (Hr x z Hd).
     destruct Hy as [Hy|Hy]; [subst z; exact Hr|]. specialize (IH z Hc y Hy). lia.
   Qed.
 
   (* a rank that decreases along every wait-for edge excludes closed walks *)
   Lemma ranked_acyclic (rk : key -> nat) : (forall x y, dep g x y -> rk y < rk x) -> acyclic g.
   Proof.
-    intros Hr y m Hc. unfold closed_walk in Hc.
+    intros Hr y m Hc. unfold FindCycle.closed_walk in Hc.
     pose proof (chain_rank rk Hr (m ++ [y]) y Hc y) as H.
     assert (rk y < rk y) by (apply H; apply in_or_app; right; left; reflexivity). lia.
   Qed.
@@ -859,7 +823,7 @@ Proof. vm_compute. reflexivity. Qed.
 Example ex_diamond_acyclic : acyclic g_diamond.
 Proof.
   apply (ranked_acyclic g_diamond (fun k => 10 - N.to_nat k)).
-  intros x y H. unfold dep, g_diamond in H. cbn [In] in H.
+  intros x y H. unfold FindCycle.dep, g_diamond in H. cbn [In] in H.
   destruct H as [H|[H|[H|[H|[]]]]]; injection H as <- <-; vm_compute; lia.
 Qed.
 
@@ -867,7 +831,7 @@ Qed.
 Example ex_simple_no_dead_end : no_dead_end g_simple 1%N.
 Proof.
   apply all_wait_no_dead_end. intros x Hx. vm_compute in Hx.
-  destruct Hx as [Hx|[Hx|[]]]; subst x; [exists 2%N | exists 1%N]; unfold dep, g_simple; cbn [In]; auto.
+  destruct Hx as [Hx|[Hx|[]]]; subst x; [exists 2%N | exists 1%N]; unfold FindCycle.dep, g_simple; cbn [In]; auto.
 Qed.
 Example ex_simple_cycle_reachable : cycle_reachable g_simple 1%N.
 Proof. apply no_dead_end_cycle. exact ex_simple_no_dead_end. Qed.
